@@ -491,7 +491,8 @@ func c03F5(l *core.Ledger, sl *serverLoop) {
 		if !ok || ex.Index != 1 {
 			return
 		}
-		if lk, ok := ex.Tuple.(*ssa.Lookup); ok && sx.Any(sx.Origins(lk.X), sx.IsFieldNamed("handlers", sx.AnyOrigin)) {
+		if lk, ok := ex.Tuple.(*ssa.Lookup); ok && (sx.Any(sx.Origins(lk.X), sx.IsFieldNamed("handlers", sx.AnyOrigin)) || sx.Any(sx.Origins(lk.Index), sx.IsFieldNamed("Method", sx.AnyOrigin))) {
+			// the handler table (as a field, or a snapshot of it loaded from an atomic pointer), asked for the request's method
 			notFound[edgeWhere(ifi, false)] = true
 		}
 	})
